@@ -22,6 +22,26 @@ func c17Step(x *engine.Exec) []engine.Failure {
 	if x.Op.K == world.KSlash {
 		x.Cnt.Inc("slash")
 	}
+	if x.Op.K == world.KGovUpdate {
+		// An update that switches a weight schedule on (the asset had none: rate 1 or interval 0) must restart the decay clock
+		// at the block time. Otherwise the next end of block raises the new rate to the number of intervals that elapsed
+		// BEFORE the schedule existed - the overflow of K-C17-decay-overflow reached with parameters and block steps that are
+		// harmless on a restarted clock, which the classifier below could not tell apart from the known finding.
+		if a, ok := x.Prev.Snap().Assets[x.Op.Denom]; ok {
+			b := x.Next.Snap().Assets[x.Op.Denom]
+			hadNone := a.RewardChangeInterval == 0 || a.RewardChangeRate.Equal(mathOne())
+			hasNow := b.RewardChangeInterval > 0 && !b.RewardChangeRate.Equal(mathOne())
+			if hadNone && hasNow {
+				x.Cnt.Inc("gov.schedule_switched_on")
+				if a.RewardChangeInterval > 0 {
+					x.Cnt.Inc("gov.schedule_switched_on_for_rate_1_asset_with_interval")
+				}
+				if !b.LastRewardChangeTime.Equal(x.Prev.Snap().Time) {
+					return []engine.Failure{fail("endblock-precondition", "decay-clock-not-restarted", "%s switched a weight schedule on but left the decay clock at %s (block time %s): the next end of block computes rate^n over intervals that elapsed before the schedule existed", x.Op.String(), b.LastRewardChangeTime, x.Prev.Snap().Time)}
+				}
+			}
+		}
+	}
 	if x.Op.K != world.KBlock {
 		return nil
 	}
@@ -120,6 +140,7 @@ func c17Ops(tier string, full bool) func(n *engine.Node) []world.Op {
 				{"1", "0,1000000000000", "0.3", "2", "1"},
 				{"5", "0,5", "0", "2", fmt.Sprint(int64(U))},
 				{"0", "0,5", "0.5", "0.5", fmt.Sprint(int64(U))},
+				{"1", "0,5", "0.3", "1", fmt.Sprint(int64(U))}, // neutral rate with an interval: no schedule yet
 			} {
 				var iv int64
 				fmt.Sscan(v[4], &iv)
@@ -159,6 +180,9 @@ func init() {
 			slashed := []world.Op{opDel(0, 0, "aaa", "10"), opDel(1, 1, "aaa", "3"), opBlock(1), opSlash(0, "0.333333333333333333"), opBlock(1)}
 			mk := func(name string, cfg world.Config, stores []string, budgets []int, depth int) *engine.Scenario {
 				seeds := tierPick(tier, [][]world.Op{seed, packed}, [][]world.Op{seed, nil, packed})
+				// aaa carries a neutral rate with an interval since block 1 and time has passed
+				seeds = append(seeds, []world.Op{opDel(0, 0, "aaa", "10"), opDel(1, 1, "aaa", "3"), opBlock(1),
+					{K: world.KGovUpdate, Denom: "aaa", Args: govArgs("authority", "1", "0,5", "0.3", "1", int64(U), false)}, opBlock(7), opBlock(300)})
 				if cfg.FullPipeline {
 					seeds = append(seeds, slashed)
 				}
@@ -168,7 +192,7 @@ func init() {
 					Ops: c17Ops(tier, cfg.FullPipeline), Step: c17Step,
 					// keep exploring after a failed EndBlocker only when it did not fail (a halted chain has no successor)
 					Expand:   func(x *engine.Exec) bool { return !x.Res.Rejected && x.Res.Err == nil },
-					Required: []string{"endblock.runs", "accepted.gov_params", "accepted.gov_update", "slash", "endblock.with_dust_only_asset", "endblock.with_empty_or_drained_asset"},
+					Required: []string{"endblock.runs", "accepted.gov_params", "accepted.gov_update", "slash", "endblock.with_dust_only_asset", "endblock.with_empty_or_drained_asset", "gov.schedule_switched_on_for_rate_1_asset_with_interval"},
 				}
 			}
 			// magnitudes: a validator whose share of an asset prices to zero tokens at 18 decimals (1 base unit against 3e18 and
